@@ -97,4 +97,386 @@ def generate {C : Type} (mk : String → List Sexp → Option Sexp) (macros : St
         | none => base (generate mk macros special base n) form
     | _ => base (generate mk macros special base n) form
 
+/-! ## The call site: the generator context carried through expansion
+
+`return gen.Generate(expr)` compiles the expansion with the generator `gen` that met the
+call — not with a sub-generator — so the expansion sees what a hand-written form at that
+place would see:
+
+  gen.scopes     number of run-time scopes (let / letseq / newScope / for) open at this
+                 point of the function being compiled; `(break)` / `(continue)` pop
+                 `gen.scopes - (loop.scopeDepth+1)` scopes, a self tail call removes `gen.scopes+1`
+  gen.Tail       tail position (a call of `gen.funcname` there becomes a jump)
+  gen.funcname   the function being compiled
+  env.loopstack  the for-loops being compiled around this point (pushed by GenerateForLoop,
+                 popped when it returns); it belongs to the interpreter, not to the generator,
+                 so it is also what a function body compiled inside a loop sees
+
+`genC` follows generator.go arm by arm for the forms below and produces the
+*context-sensitive* instructions only (`KI`) — exactly what the overlay accessor
+`VerifCtxListing` reports for the real code. Sub-generators (`NewSubGenerator`, `Reset`)
+start from scopes = 0, Tail = false and get the fields the Go code copies, no others.
+Outside the model (`none`, like a compile error): mdef, assert, defmac, macexpand,
+syntaxQuote, include, package, _ls, assignment lists (`=`, `:=`), builder calls, lazy formals.
+-/
+
+/-- The context-sensitive instructions. A closure body is bracketed by `fnOpen … fnClose`. -/
+inductive KI where
+  | addScope                    -- AddScopeInstr
+  | remScope                    -- RemoveScopeInstr
+  | loopStart (id : Nat)        -- LoopStartInstr
+  | brk (id pops : Nat)         -- BreakInstr{loop, scopesToPop}
+  | cont (id pops : Nat)        -- ContinueInstr{loop, scopesToPop}
+  | prepCall (n : Nat)          -- PrepareCallInstr (self tail call)
+  | goto0                       -- GotoInstr{0}
+  | callX (callee : String) (n : Nat)   -- CallExprInstr: arguments are compiled when it runs
+  | fnOpen                      -- CreateClosureInstr{sfun}: sfun.fun follows
+  | fnClose
+  deriving DecidableEq, Repr
+
+/-- generator.go `Loop` as far as the generator reads it -/
+structure Loop where
+  id : Nat
+  label : Option String
+  scopeDepth : Nat
+  deriving DecidableEq, Repr
+
+/-- The fields of `Generator` that decide what is emitted, and the gensym counter. -/
+structure GenSt where
+  scopes : Nat
+  tail : Bool
+  funcname : String
+  next : Nat
+  deriving DecidableEq, Repr
+
+/-- What the interpreter knows while compiling: the macro table, how hashes are made (for
+expansion), and which names may not be bound (`IsBuiltinSym`). -/
+structure CEnv where
+  mkHash : String → List Sexp → Option Sexp
+  macros : String → Option Macro
+  builtin : String → Bool
+  /-- does `bindsName` look into the expansions of macro calls? (generator.go as of 70c349a:
+  no; with fixes/C15-04: yes. The driver takes it from the regenerated table
+  `Generated.SQCtx.rebindScansExpansions`.) -/
+  scanExpansions : Bool := false
+
+/-- the case labels of the switch in GenerateCallBySymbol, in order (T1: `emit_special_forms`) -/
+def specialForms : List String :=
+  ["and", "or", "cond", "quote", "def", "mdef", "fn", "defn", "begin", "let", "letseq", "assert",
+   "defmac", "macexpand", "syntaxQuote", "include", "for", "set", "break", "continue", "newScope",
+   "package", "return", "_ls"]
+
+abbrev GenRes := Option (List KI × GenSt)
+/-- a generator for one form, given the loop stack and the generator state -/
+abbrev GenFn := List Loop → GenSt → Sexp → GenRes
+
+/-- `NewSubGenerator()` followed by the assignments the Go code makes: everything else starts
+from the zero value. The gensym counter is the interpreter's. -/
+def subgen (s : GenSt) (scopes : Nat) (tail : Bool) (funcname : String) : GenSt :=
+  { scopes := scopes, tail := tail, funcname := funcname, next := s.next }
+
+/-- back in the parent generator after a sub-generator ran: only the counter moved -/
+def GenSt.after (s sub : GenSt) : GenSt := { s with next := sub.next }
+
+/-- a run of `gen.Generate` calls on the same generator (GenerateAll, let bindings, …) -/
+def genSeq (rec : GenSt → Sexp → GenRes) : List Sexp → GenSt → GenRes
+  | [], s => some ([], s)
+  | x :: xs, s => do
+    let (a, s1) ← rec s x
+    let (b, s2) ← genSeq rec xs s1
+    some (a ++ b, s2)
+
+/-- GenerateBegin: all but the last form are not in tail position; `gen.Tail` is restored
+before the last one (and stays false when there is none). -/
+def genBegin (rec : GenSt → Sexp → GenRes) (xs : List Sexp) (s : GenSt) : GenRes :=
+  let s0 := { s with tail := false }
+  match xs.getLast? with
+  | none => some ([], s0)
+  | some last => do
+    let (a, s1) ← genSeq rec xs.dropLast s0
+    let (b, s2) ← rec { s1 with tail := s.tail } last
+    some (a ++ b, s2)
+
+/-- GenerateNewScope -/
+def genNewScope (rec : GenSt → Sexp → GenRes) (xs : List Sexp) (s : GenSt) : GenRes :=
+  let s0 := { s with tail := false }
+  match xs.getLast? with
+  | none => some ([], s0)
+  | some last => do
+    let (a, s1) ← genSeq rec xs.dropLast { s0 with scopes := s0.scopes + 1 }
+    let (b, s2) ← rec { s1 with tail := s.tail } last
+    some (.addScope :: a ++ b ++ [.remScope], { s2 with scopes := s2.scopes - 1 })
+
+def symName? : Sexp → Option String
+  | .atom (.sym n) => some n
+  | _ => none
+
+/-- generator.go getQuotedSymbol / the label argument of for, break, continue -/
+def label? : Sexp → Option String
+  | .atom (.sym n) => some n
+  | .cons (.atom (.sym "quote")) (.cons (.atom (.sym n)) .nil) => some n
+  | _ => none
+
+/-- GenerateLet (`let` and `letseq` differ in where the bindings are stored, not in what is
+compiled where) -/
+def genLet (rec : GenSt → Sexp → GenRes) (args : List Sexp) (s : GenSt) : GenRes :=
+  match args with
+  | .arr bindings :: body@(_ :: _) =>
+    match listToArray bindings with
+    | none => none
+    | some bs =>
+      if bs.length % 2 ≠ 0 then none
+      else
+        let lhs := (List.range (bs.length / 2)).map (fun i => bs.getD (2 * i) .nil)
+        let rhs := (List.range (bs.length / 2)).map (fun i => bs.getD (2 * i + 1) .nil)
+        if lhs.any (fun x => (symName? x).isNone) then none
+        else do
+          let (a, s1) ← genSeq rec rhs { s with scopes := s.scopes + 1 }
+          let (b, s2) ← genBegin rec body s1
+          some (.addScope :: a ++ b ++ [.remScope], { s2 with scopes := s2.scopes - 1 })
+  | _ => none
+
+/-- GenerateCond: the default and every branch body in a sub-generator with Tail, scopes and
+funcname of the caller; every predicate after `Reset()` — Tail false, scopes 0. -/
+def genCond (rec : GenSt → Sexp → GenRes) (args : List Sexp) (s : GenSt) : GenRes :=
+  if args.length % 2 = 0 then none
+  else
+    let rec go : List Sexp → GenSt → GenRes
+      | [dflt], s' => do
+        let (c, sd) ← rec (subgen s' s.scopes s.tail s.funcname) dflt
+        some (c, s'.after sd)
+      | p :: b :: more, s' => do
+        let (cp, sp) ← rec (subgen s' 0 false s.funcname) p
+        let (cb, sb) ← rec (subgen (s'.after sp) s.scopes s.tail s.funcname) b
+        let (cr, sr) ← go more ((s'.after sp).after sb)
+        some (cp ++ cb ++ cr, sr)
+      | _, _ => none
+    go args s
+
+/-- GenerateShortCircuit: every operand in its own sub-generator with scopes and funcname;
+only the last one inherits Tail. -/
+def genShort (rec : GenSt → Sexp → GenRes) (args : List Sexp) (s : GenSt) : GenRes :=
+  let rec go : List Sexp → GenSt → GenRes
+    | [], s' => some ([], s')
+    | [last], s' => do
+      let (c, sl) ← rec (subgen s' s.scopes s.tail s.funcname) last
+      some (c, s'.after sl)
+    | x :: more, s' => do
+      let (c, sx) ← rec (subgen s' s.scopes false s.funcname) x
+      let (cr, sr) ← go more (s'.after sx)
+      some (c ++ cr, sr)
+  go args s
+
+/-- GenerateBreak / GenerateContinue: the innermost loop, or the innermost one carrying the
+label; `scopesToPop = gen.scopes - (loop.scopeDepth+1)`, not below 0. -/
+def genBrk (isBreak : Bool) (loops : List Loop) (args : List Sexp) (s : GenSt) : GenRes :=
+  let emit (l : Loop) : GenRes :=
+    let pops := s.scopes - (l.scopeDepth + 1)
+    some ([if isBreak then .brk l.id pops else .cont l.id pops], s)
+  match args with
+  | [] => match loops with
+    | l :: _ => emit l
+    | [] => none
+  | [a] => match label? a with
+    | none => none
+    | some lab => match loops with
+      | [] => none
+      | _ => match loops.find? (fun l => l.label = some lab) with
+        | some l => emit l
+        | none => none
+  | _ => none
+
+/-- the name GenSymbol("__anon") gives an anonymous function: no symbol a program can write -/
+def anonName : String := "__anon#"
+
+/-! `rebindsOwnName` (generator.go, since /repo 70c349a): a function that binds or assigns its
+own name — as a parameter or as the target of def / set / defmac / mdef / let / letseq / range /
+fn / defn / func / method / `=` / `:=` anywhere in its body — is compiled with funcname = "":
+calls through the name stay ordinary calls. The test is syntactic, on the body as written. -/
+
+def isSymNamed (x : Sexp) (name : String) : Bool := x = .atom (.sym name)
+
+/-- formalsBind: `f`, the lazy `#f`, the typed `f:` -/
+def formalsBind (formals : List Sexp) (name : String) : Bool :=
+  formals.any (fun f => match f with
+    | .atom (.sym s) => s = name || s = "#" ++ name || s = name ++ ":"
+    | _ => false)
+
+/-- assignsIn: `name = v`, `name := v`, `a name = v w` among the elements (anything that is not
+a symbol — commas aside, which these forms do not contain — ends the run of targets) -/
+def assignsIn (elems : List Sexp) (name : String) : Bool :=
+  (elems.foldl (fun (acc : Bool × Bool) x =>
+    match x with
+    | .atom (.sym s) =>
+      if s = "=" || s = ":=" then (acc.1, acc.2 || acc.1)
+      else if s = name then (true, acc.2)
+      else acc
+    | _ => (false, acc.2)) (false, false)).2
+
+/-- the two switches over the head symbol in `bindsName` -/
+def headBinds (f : String) (args : List Sexp) (name : String) : Bool :=
+  (if f = "def" || f = "set" || f = "defmac" then
+      (match args with | a :: _ => isSymNamed a name | [] => false)
+    else if f = "mdef" then args.length > 1 && formalsBind args.dropLast name
+    else if f = "let" || f = "letseq" then
+      (match args with
+        | .arr bs :: _ => (match listToArray bs with
+          | some xs => (List.range (xs.length / 2)).any (fun i => isSymNamed (xs.getD (2 * i) .nil) name)
+          | none => false)
+        | _ => false)
+    else if f = "range" then
+      (match args with | a :: b :: _ => isSymNamed a name || isSymNamed b name | _ => false)
+    else false)
+  || (if f = "fn" then
+      (match args with
+        | .arr ps :: _ => (match listToArray ps with | some xs => formalsBind xs name | none => false)
+        | _ => false)
+    else if f = "defn" || f = "defmac" || f = "func" || f = "method" then
+      (match args with | a :: _ => isSymNamed a name | [] => false)
+      || (match args with
+        | _ :: .arr ps :: _ => (match listToArray ps with | some xs => formalsBind xs name | none => false)
+        | _ => false)
+    else false)
+
+/-- `bindsName`; with `E.scanExpansions` (fixes/C15-04) a macro call also binds what its
+expansion binds. Fuel bounds the nesting (and a macro that expands for ever). -/
+def bindsName (E : CEnv) (name : String) : Nat → Sexp → Bool
+  | 0, _ => false
+  | n + 1, expr =>
+    match expr with
+    | .arr elems =>
+      match listToArray elems with
+      | some xs => assignsIn xs name || xs.any (bindsName E name n)
+      | none => false
+    | .cons h t =>
+      match listToArray t with
+      | none => bindsName E name n h || bindsName E name n t
+      | some args =>
+        (match h with
+          | .atom (.sym f) =>
+            headBinds f args name
+            || (E.scanExpansions && (match E.macros f with
+                | some m => (match expand E.mkHash m args with
+                  | some x => bindsName E name n x
+                  | none => false)
+                | none => false))
+          | _ => false)
+        || assignsIn (h :: args) name || (h :: args).any (bindsName E name n)
+    | _ => false
+
+def rebindsOwnName (E : CEnv) (name : String) (formals : List Sexp) (body : List Sexp) : Bool :=
+  name ≠ "" && (formalsBind formals name || body.any (bindsName E name 100))
+
+/-- buildSexpFun: a new generator — scopes 0, Tail true, the function's name (none when the
+function rebinds its own name) — compiles the body with GenerateBegin; RemoveScope, Return
+follow. The loop stack is the interpreter's and stays what it is. `name` = "" for `fn`:
+its funcname is the gensym `anonName`. -/
+def genFun (E : CEnv) (rec : GenSt → Sexp → GenRes) (name : String) (params : Sexp) (body : List Sexp) (s : GenSt) : GenRes :=
+  match listToArray params with
+  | none => none
+  | some ps =>
+    if ps.any (fun x => (symName? x).isNone) then none
+    else
+      let fname := if name = "" then anonName else if rebindsOwnName E name ps body then "" else name
+      do
+        let (c, sf) ← genBegin rec body { scopes := 0, tail := true, funcname := fname, next := s.next }
+        some (.fnOpen :: c ++ [.remScope, .fnClose], s.after sf)
+
+/-- GenerateForLoop: the loop is pushed on env.loopstack; body, init, test and increment are
+compiled by four sub-generators with Tail false and the scope count inside the loop's scope. -/
+def genFor (rec : List Loop → GenSt → Sexp → GenRes) (loops : List Loop) (args : List Sexp) (s : GenSt) : GenRes :=
+  let build (label : Option String) (controls : Sexp) (body : List Sexp) : GenRes :=
+    match listToArray controls with
+    | some [init, test, incr] =>
+      let loop : Loop := { id := s.next, label := label, scopeDepth := s.scopes }
+      let inner := s.scopes + 1
+      let loops' := loop :: loops
+      let s0 : GenSt := { s with next := s.next + 1 }
+      do
+        let (cb, sb) ← genBegin (rec loops') body (subgen s0 inner false s.funcname)
+        let (ci, si) ← rec loops' (subgen (s0.after sb) inner false s.funcname) init
+        let (ct, st) ← rec loops' (subgen (s0.after si) inner false s.funcname) test
+        let (cn, sn) ← rec loops' (subgen (s0.after st) inner false s.funcname) incr
+        some (.loopStart loop.id :: .addScope :: ci ++ cn ++ ct ++ cb ++ [.remScope], s.after sn)
+    | _ => none
+  match args with
+  | .arr controls :: body => build none controls body
+  | lab :: .arr controls :: body =>
+    match lab with
+    | .arr _ => none
+    | _ => match label? lab with
+      | some l => build (some l) controls body
+      | none => none
+  | _ => none
+
+/-- `Generate(form)` in context: the loop stack `loops` and the generator state `s`. -/
+def genC (E : CEnv) : Nat → GenFn
+  | 0, _, _, _ => none
+  | n + 1, loops, s, form =>
+    let rec' : GenSt → Sexp → GenRes := fun s x => genC E n loops s x
+    match form with
+    | .atom _ => some ([], s)                    -- EnvToStack / Push
+    | .nil => some ([], s)
+    | .hash _ _ => some ([], s)
+    | .arr elems =>                              -- GenerateArray: GenerateAll, then `array`
+      match listToArray elems with
+      | some xs => genSeq rec' xs s
+      | none => none
+    | .cons h t =>
+      match listToArray t with
+      | none => some ([], s)                     -- not a list: pushed
+      | some args =>
+        if (h :: args).any (fun x => x = .atom (.sym "=") || x = .atom (.sym ":=")) then none
+        else match h with
+        | .atom (.sym f) =>
+          if f ∈ specialForms then
+            -- GenerateCallBySymbol: the switch
+            if f = "and" || f = "or" then genShort rec' args s
+            else if f = "cond" then genCond rec' args s
+            else if f = "quote" then some ([], s)
+            else if f = "def" || f = "set" then
+              match args with
+              | [lhs, rhs] =>
+                match symName? lhs with
+                | some v =>
+                  if E.builtin v || (E.macros v).isSome then none
+                  else rec' { s with tail := false } rhs       -- `gen.Tail = false`, not restored
+                | none => none
+              | _ => none
+            else if f = "fn" then
+              match args with
+              | .arr params :: body@(_ :: _) => genFun E rec' "" params body s
+              | _ => none
+            else if f = "defn" then
+              match args with
+              | .atom (.sym name) :: .arr params :: body@(_ :: _) =>
+                if E.builtin name || (E.macros name).isSome then none
+                else genFun E rec' name params body s
+              | _ => none
+            else if f = "begin" then genBegin rec' args s
+            else if f = "let" || f = "letseq" then genLet rec' args s
+            else if f = "for" then genFor (fun l s x => genC E n l s x) loops args s
+            else if f = "break" then genBrk true loops args s
+            else if f = "continue" then genBrk false loops args s
+            else if f = "newScope" then genNewScope rec' args s
+            else if f = "return" then genSeq rec' args s
+            else none
+          else match E.macros f with
+            | some m =>
+              -- the macro branch: expansion in a duplicate, then `gen.Generate(expr)` — same
+              -- generator, same loop stack
+              (expand E.mkHash m args).bind (genC E n loops s)
+            | none =>
+              -- an ordinary call
+              if s.tail && f = s.funcname then do
+                let (a, s1) ← genSeq rec' args { s with tail := false }
+                some (a ++ [KI.prepCall args.length] ++ List.replicate (s1.scopes + 1) KI.remScope ++ [KI.goto0],
+                      { s1 with tail := s.tail })
+              else some ([.callX f args.length], s)
+        | _ => some ([.callX "?" args.length], s)   -- GenerateDispatch
+
+/-- LoadExpressions: a new generator, GenerateBegin of the top-level forms. -/
+def genProgram (E : CEnv) (fuel : Nat) (forms : List Sexp) : Option (List KI) :=
+  (genBegin (fun s x => genC E fuel [] s x) forms { scopes := 0, tail := false, funcname := "", next := 0 }).map (·.1)
+
 end ZygoVerif.SQ
